@@ -43,6 +43,26 @@
 (assert (<= 0 n))
 (assert (= (SWP (MemPred ids m) m n) 0))
 (assert (not (= (SWP (MemPred ids m) m (+ n 1)) 0)))
+;; goal SWP.same-seq.membership
+(declare-const ids1 Slice_BS)
+(declare-const ids2 Slice_BS)
+(declare-const x Str)
+(assert (SameSeq ids1 ids2))
+(assert (not (= (InIds ids1 x) (InIds ids2 x))))
+;; goal SWP.same-seq.base
+(declare-const ids1 Slice_BS)
+(declare-const ids2 Slice_BS)
+(assert (SameSeq ids1 ids2))
+(assert (<= n 0))
+(assert (not (= (SWP (MemPred ids1 m) m n) (SWP (MemPred ids2 m) m n))))
+;; goal SWP.same-seq.step
+(declare-const ids1 Slice_BS)
+(declare-const ids2 Slice_BS)
+(assert (SameSeq ids1 ids2))
+(assert (forall ((x Str)) (= (InIds ids1 x) (InIds ids2 x))))
+(assert (<= 0 n))
+(assert (= (SWP (MemPred ids1 m) m n) (SWP (MemPred ids2 m) m n)))
+(assert (not (= (SWP (MemPred ids1 m) m (+ n 1)) (SWP (MemPred ids2 m) m (+ n 1)))))
 ;; goal CANARY.sums-not-trivial
 (assert (< 0 n))
 (assert (not (= (SumA a n) 0)))
